@@ -53,6 +53,7 @@ def run(ctx):
     hists = [fc.observers(rng, fc.PATHS, [fc.norm_op(op, rng) for op in h], 0.15) for h in hists]
     # 2. G4: seeded random input scripts over a larger path universe, no hard links
     hists += fc.random_scripts(rng, 600 if ctx.thorough else 80, 12, WEIGHTS)
+    hists = fc.finding_scripts("C18") + hists
     fc.drive_and_judge(ctx, hists, nontrivial, mutate, ["C18"])
     ctx.rule = ("executions = one TLC witness history per (namespace state, last operation) to depth %d over 5 paths "
                 "(sampled in the quick tier; thorough adds a sample of all histories of length 2 and random walks of length 10) "
